@@ -302,8 +302,3 @@ impl TopicCleanTracker {
     }
 }
 
-impl Drop for TopicCleanTracker {
-    fn drop(&mut self) {
-        self.flush_all();
-    }
-}
